@@ -263,7 +263,7 @@ fn rans_coq(cx: &mut Cx, n: u64, data: &[u8], freq: &[u32; 256], table: &[u32], 
 
 pub fn coq_push(cx: &mut Cx, op: u32, a: &[u128], b: &[u128], expect: &[u128], cj: &Value) {
     let used = cx.coq_used.entry(op).or_insert(0);
-    let limit = match op { 100 => cx.coq_limit / 16, _ => cx.coq_limit / 6 };
+    let limit = match op { 100 => cx.coq_limit / 20, 110 => cx.coq_limit / 40, 111 | 112 => cx.coq_limit / 7, _ => cx.coq_limit / 7 };
     if *used >= limit { return; }
     *used += 1;
     let term = format!("({}, {}, {}, {})", op, coq_n_list(a.iter().cloned()), coq_n_list(b.iter().cloned()), coq_n_list(expect.iter().cloned()));
@@ -371,8 +371,29 @@ fn fse_case(cx: &mut Cx, preset: &str, api: u64, data: &[u8], first: Option<&[u8
     }
 }
 
-fn fse_coq(_cx: &mut Cx, _cfg: &FseConfig, _data: &[u8], _bytes: &[u8], _cj: &Value) {
-    let _ = FseTable::new;
+fn fse_coq(cx: &mut Cx, cfg: &FseConfig, data: &[u8], bytes: &[u8], cj: &Value) {
+    // The normalised table is read from the real FseTable (the f64 normaliser is an oracle of the model).
+    // op 110: a = table, expect = the 5 fields of every encoding symbol          (init_enc_symbol)
+    // op 111: a = par :: block_size :: table, b = raw counts ++ payload, expect = 1 :: compressed bytes
+    // op 112: a = table, b = compressed bytes, expect = 1 :: payload             (model decoder on the real stream)
+    if data.is_empty() || data.len() > 2100 { return; }
+    let raw = counts(data);
+    let table = match guarded(|| FseTable::new(&raw, cfg)) { Ok(Ok(t)) => t, _ => return };
+    let t: Vec<u128> = (0..256).map(|i| table.dec_symbols[i].freq as u128).collect();
+    let mut fields: Vec<u128> = vec![];
+    for i in 0..256 {
+        let e = &table.enc_symbols[i];
+        fields.extend([e.rcp_freq as u128, e.freq as u128, e.bias as u128, e.cmpl_freq as u128, e.rcp_shift as u128]);
+    }
+    coq_push(cx, 110, &t, &[], &fields, cj);
+    let par = match cfg.parallel_blocks { None => 0u128, Some(k) => k as u128 + 1 };
+    let mut a = vec![par, cfg.block_size as u128]; a.extend(t.iter().cloned());
+    let mut b: Vec<u128> = raw.iter().map(|&x| x as u128).collect(); b.extend(data.iter().map(|&x| x as u128));
+    let mut e = vec![1u128]; e.extend(bytes.iter().map(|&x| x as u128));
+    coq_push(cx, 111, &a, &b, &e, cj);
+    let zb: Vec<u128> = bytes.iter().map(|&x| x as u128).collect();
+    let mut e2 = vec![1u128]; e2.extend(data.iter().map(|&x| x as u128));
+    coq_push(cx, 112, &t, &zb, &e2, cj);
 }
 
 /// Search for a payload that drives FseEncoder into a state on which FseTable::mul_hi (32-bit limbs, u64
